@@ -82,6 +82,27 @@ def nest(template: str, lines: list[str]) -> str:
     return "\n".join((first if i == 0 else cont) + l if l.strip() or ">" in cont else ((first if i == 0 else cont).rstrip() + l) for i, l in enumerate(lines))
 
 
+def gen_indented_code_doc(rng) -> str:
+    """indented code blocks (rendered as fenced ones: the fence has to be chosen from the content) and fenced blocks whose
+    opening fence is itself indented, with fence-like content lines at every indentation"""
+    lines = [rng.choice(["```", " ```", "  ```", "   ```", "    ```", "~~~", " ~~~", "```js", "  ````", "x", "", "- y", "   `````"]) for _ in range(rng.randint(1, 6))]
+    if rng.random() < 0.5:
+        block = ["    " + l if l else "" for l in lines]
+        while block and not block[0].strip():
+            block.pop(0)
+        while block and not block[-1].strip():
+            block.pop()
+        block = block or ["    x"]
+    else:
+        ind = rng.choice([" ", "  ", "   "])
+        fence = rng.choice(["```", "~~~"])
+        body = [ind + "    " + l for l in lines]          # deeper than the opening fence by four or more: content, not a closing fence
+        block = [ind + fence] + body + [ind + fence]
+    pre = rng.choice(["", "para before\n\n", "# h\n\n"])
+    post = rng.choice(["", "\n\npara after", "\n\n- x"])
+    return pre + nest(rng.choice(CONTAINERS[:6]), block) + post + "\n"
+
+
 def gen_code_doc(rng) -> str:
     fence = rng.choice(["```", "~~~", "````", "~~~~~~"])
     info = rng.choice(["", "py", "python title=\"x y\"", "c++", "~x", "{% t %}", "\"q\"...", "a`b" if fence[0] == "~" else "ab"])
@@ -151,7 +172,7 @@ def run(chk: Check) -> None:
         return
     rng = chk.rng
     n = 1 if tier == "quick" else 10
-    docs = [gen_code_doc(rng) for _ in range(250 * n)] + [gen_span_doc(rng) for _ in range(250 * n)]
+    docs = [gen_code_doc(rng) for _ in range(200 * n)] + [gen_indented_code_doc(rng) for _ in range(150 * n)] + [gen_span_doc(rng) for _ in range(250 * n)]
     gen_docs.AVOID = set(c02.AVOID_MAIN)
     docs += [gen_docs.gen_doc(rng) for _ in range(150 * n)]
     gen_docs.AVOID = set()
